@@ -162,6 +162,17 @@ def property_checks(inp):
         full = zk.zernikeArray(max(lst), N, norm=norm, rot=inp["rot"])
         part = zk.zernikeArray(lst, N, norm=norm, rot=inp["rot"])
         A(("array from an index list = slices of the array from a count (%s)" % norm, float(numpy.abs(part - full[numpy.array(lst) - 1]).max()), 0.0))
+    # rotation: the cos/sin partners of one (n, |m|) rotate together, as the 2 x 2 rotation of the unrotated pair; m = 0 is unchanged
+    nr_, mr_ = inp["n"], inp["m_abs"]
+    for rot_ in (0.3, 1.1, -0.7):
+        if mr_ > 0:
+            c0, s0 = zk.zernike_nm(nr_, mr_, N), zk.zernike_nm(nr_, -mr_, N)
+            cr, sr = zk.zernike_nm(nr_, mr_, N, rot_), zk.zernike_nm(nr_, -mr_, N, rot_)
+            sc_r = max(float(numpy.abs(c0).max()), float(numpy.abs(s0).max()), 1e-300)
+            A(("rotated cos/sin pair = rotation of the unrotated pair (rot %g)" % rot_,
+               float(max(numpy.abs(cr - (math.cos(rot_) * c0 - math.sin(rot_) * s0)).max(), numpy.abs(sr - (math.sin(rot_) * c0 + math.cos(rot_) * s0)).max()) / sc_r), 1e-9))
+        else:
+            A(("m = 0 modes do not depend on the rotation (rot %g)" % rot_, float(numpy.abs(zk.zernike_nm(nr_, 0, N, rot_) - zk.zernike_nm(nr_, 0, N)).max()), 1e-12))
     co = npr.normal(size=J)
     A(("phase from coefficients is the linear combination", float(numpy.abs(zk.phaseFromZernikes(list(co), N) - numpy.tensordot(co, Zs, axes=1)).max()), 1e-12))
     # gamma matrices vs actual gradients (analytic modes on a fine grid, central differences in the interior)
